@@ -203,9 +203,9 @@ CLAIMS = {
         'on every scalar of a pool of 32 with 25 paddings, every key of 16 with 8 values, every ordered key pair, 4^5 whitespace layouts, '
         'random trees rendered with random whitespace, malformed texts; python json as independent oracle that Example() denotes the same '
         'value and the AST reports the document.',
-   note='Trusted: Coq kernel; model tied by correspondence; python oracle; harness. Partial: the printer direction (parsing Example() of a '
-        'tree gives a tree denoting the same value, incl. the re-encoding of keys) is checked by the correspondence and the oracle, not yet '
-        'proved; soundness of the parser (accepted => a rendering) is not proved either. No axioms.',
+   note='Trusted: Coq kernel; model tied by correspondence; python oracle; harness. The printer direction is proved as well (C03_example_roundtrip: Example() of an accepted text is accepted again with the '
+        'same shape, literals and key denotations; the encoder/decoder round trip over all Unicode scalar values with UTF-8 and surrogate '
+        'pairs). Partial: soundness of the parser (accepted => a rendering) is not proved; the AST clause is correspondence + oracle. No axioms.',
    technique='Coq completeness proof of a parser model against a rendering relation (mutual induction, explicit fuel bound) + correspondence + oracle',
    ref='section 9, C03'),
  'C15': dict(
